@@ -603,6 +603,14 @@ func ruleTokenRegister(c *chk.Ctx, owner string) {
 				c.Fail("TOKEN.register", f, owner+" registration", mu.Pos(), "no context watcher is started for the registered Response: if no reply arrives the caller would block after its context ends")
 				return
 			}
+			if ok, at := (ir.PathQuery{Goal: func(i ssa.Instruction) bool { return i == ssa.Instruction(watcher) }}).MustReach(mu); !ok {
+				where := ""
+				if at != nil {
+					where = " (a path leaves at " + c.P.Pos(at.Pos()) + ")"
+				}
+				c.Fail("TOKEN.register", f, owner+" registration", watcher.Pos(), "the watcher for the registered Response is not started on every path after the registration%s: a request whose watcher is missing is never completed when the owner stops", where)
+				return
+			}
 			gc := classifyOne(c, watcher)
 			if gc.kind != "watcher" {
 				c.Fail("TOKEN.register", f, owner+" registration", watcher.Pos(), "the goroutine started for the registered Response is not a context watcher with a guaranteed release: %s", gc.detail)
